@@ -1,3 +1,6 @@
+module String = Stdlib.String
+module List = Stdlib.List
+module Char = Stdlib.Char
 (* Conversions between OCaml values and the extracted Coq datatypes. *)
 open BinNums
 open Datatypes
